@@ -247,7 +247,7 @@ def shard(ctx: Ctx, sh: int, nshards: int, n: int) -> Stats:
             for sig, det in fails:
                 st.fail(sig, case, det[:1800])
 
-        drive(strategy(), one, ctx.shard_seed(sh, 61), n)
+        drive(strategy(), one, ctx.shard_seed(sh, 61), n, chunk=4000)
     st.notes.append("distinct_nontrivial counts at most two sampled non-identifier derivations per schema (a conservative lower bound); "
                     "label 'nontrivial' holds the total number of non-identifier derivations checked")
     return st
